@@ -182,6 +182,10 @@ class DebugCore(Contract):
         cs = [ps.TaskStartAt(task=t1, value=P.int("a")), ps.TaskStartAt(task=t1, value=P.int("b"), name="second")]
         if case["extra"]:
             cs.append(ps.TaskEndBefore(task=t2, value=P.int("c")))
+        if case["res"]:
+            # a constraint holding several assertions (one per interval and busy interval)
+            P.assume(P.int("u") >= 0)
+            cs.append(ps.ResourceUnavailable(resource=pb.workers["w"], list_of_time_intervals=[(P.int("u"), P.int("u") + 2), (P.int("u") + 4, P.int("u") + 5)]))
         solver = ps.SchedulingSolver(problem=pb, debug=True)
         if P.symbolic:
             printed = []
@@ -252,6 +256,44 @@ class DebugCore(Contract):
             m = G.models[-1]
             out.append(Clause("post[debug mode: a returned schedule satisfies every constraint]", And(*[m.rename(f) for f in G.stack()]), props=("C19",), kind="sound"))
         return out
+
+
+def _debug_native_search(case, params, ob):
+    """real library, debug mode: an infeasible problem whose conflict goes through a non-last assertion of a
+    constraint holding several assertions; the printed diagnosis must name constraints that, with the basic
+    rules, are infeasible on their own"""
+    import io, contextlib, re
+    from psvc import runner
+
+    ps = runner.native_ps()
+
+    def build(only=None):
+        pb = ps.SchedulingProblem(name="pb", horizon=12)
+        t1 = ps.FixedDurationTask(name="t1", duration=3)
+        w = ps.Worker(name="w")
+        t1.add_required_resource(w)
+        cs = {
+            "ends_early": lambda: ps.TaskEndBefore(name="ends_early", task=t1, value=5),
+            "w_unavailable": lambda: ps.ResourceUnavailable(name="w_unavailable", resource=w, list_of_time_intervals=[(0, 5), (9, 11)]),
+            "irrelevant": lambda: ps.TaskStartAfter(name="irrelevant", task=t1, value=0),
+        }
+        for n, mk_ in cs.items():
+            if only is None or n in only:
+                mk_()
+        return pb
+
+    buf = io.StringIO()
+    with contextlib.redirect_stdout(buf):
+        res = ps.SchedulingSolver(problem=build(), debug=True).solve()
+    text = buf.getvalue()
+    blamed = set(re.findall(r"name='([a-z_]+)'", text.split("Unsatisfied constraints")[-1])) & {"ends_early", "w_unavailable", "irrelevant"} if "Unsatisfied constraints" in text else set()
+    with contextlib.redirect_stdout(io.StringIO()):
+        alone = ps.SchedulingSolver(problem=build(only=blamed)).solve()
+    bad = res is False and bool(alone)
+    return {"confirmed": bool(bad), "observation": {"verdict": bool(res), "blamed": sorted(blamed), "blamed_constraints_alone_feasible": bool(alone)}}
+
+
+DebugCore.native_search = staticmethod(_debug_native_search)
 
 
 # ------------------------------------------------------------------------------ C12 another solution
@@ -339,6 +381,52 @@ class AnotherSolution(Contract):
                 goal = Not(And(*[X.rename(f) for f in base], *excl))
                 out.append(Clause(f"post[{i}:{step}: fails only when no such schedule is left]", goal, hyps=[fact], props=("C12", "C13"), kind="sound", bounded=self.bounded))
         return out
+
+
+def _enumerate_native(ps, H, d1, optional, first="another"):
+    """real library: solve, then find_another_solution until it fails; returns the set of reported timings"""
+    import io, contextlib
+
+    with contextlib.redirect_stdout(io.StringIO()):
+        pb = ps.SchedulingProblem(name="pb", horizon=H)
+        t1 = ps.FixedDurationTask(name="t1", duration=d1)
+        t2 = ps.VariableDurationTask(name="t2", optional=optional)
+        w = ps.Worker(name="w")
+        t1.add_required_resource(w)
+        t2.add_required_resource(w)
+        solver = ps.SchedulingSolver(problem=pb)
+        seen = []
+        sol = solver.solve()
+        base = list(solver._solver.assertions())
+        while sol and len(seen) < 400:
+            seen.append(tuple((n, ts.start, ts.end, ts.scheduled) for n, ts in sol.tasks.items()))
+            sol = solver.find_another_solution()
+    # brute force on the same constraint system: all distinct (start, end, scheduled) timings
+    s = z3.Solver()
+    s.add(*base)
+    keys = [t1._start, t1._end, t2._start, t2._end] + ([t2._scheduled] if optional else [])
+    allt = set()
+    while s.check() == z3.sat and len(allt) < 400:
+        m = s.model()
+        vals = [m.eval(k, model_completion=True) for k in keys]
+        allt.add(tuple(str(v) for v in vals))
+        s.add(z3.Or(*[k != v for k, v in zip(keys, vals)]))
+    return seen, allt
+
+
+def _another_native_search(case, params, ob):
+    from psvc import runner
+
+    ps = runner.native_ps()
+    H, d1 = params.get("H", 3), params.get("d1", 1)
+    for h in sorted({H, min(H + 1, 6), 3, 4}):
+        seen, allt = _enumerate_native(ps, h, d1, case["optional"])
+        if len(set(seen)) != len(seen) or len(set(seen)) != len(allt):
+            return {"confirmed": True, "observation": {"horizon": h, "d1": d1, "optional": case["optional"], "enumerated_by_find_another_solution": len(seen), "distinct": len(set(seen)), "valid_timings_by_brute_force": len(allt)}}
+    return {"confirmed": False, "observation": {"searched_horizons": sorted({H, min(H + 1, 6), 3, 4})}}
+
+
+AnotherSolution.native_search = staticmethod(_another_native_search)
 
 
 @register
